@@ -14,6 +14,7 @@ import copy
 import inspect
 import itertools
 import json
+import keyword
 import os
 import random
 
@@ -93,6 +94,7 @@ DEFAULTS = ['1', "'d'", 'None', '(1, 2)']
 ANNOTS = ['int', "'T'", 'str', 'list']
 POSARGS = ['1', 'q', 'g(2)', "'s'", 'q.r', '[1, 2]']
 FORMS = ['func', 'method', 'classmethod', 'staticmethod', 'init']
+VARIANTS = ['open', 'closed', 'multiline', 'nested', 'nested-closed']
 
 
 def tok(t, name='', stars=0, df=False, an=False):
@@ -178,21 +180,24 @@ def render_program(defn, form, call, slot, variant, doc=None, ret=False):
             args.append('**x')
     st = {'empty': '', 'frag': slot['s'], 'kweq': slot['s'] + '=', 'star': '*' + slot['s'],
           'dstar': '**' + slot['s']}[slot['t']]
+    # 'nested': the call is itself an argument of another call that is being typed
+    outer = 'g(0, ' if variant in ('nested', 'nested-closed') else ''
     if variant == 'multiline':
         sep = ',\n    '
         text = callee + '(' + ('\n    ' if args else '') + sep.join(args) + (sep if args else '') + st
     else:
-        text = callee + '(' + ''.join(a + ', ' for a in args) + st
+        text = outer + callee + '(' + ''.join(a + ', ' for a in args) + st
     call_lines = text.split('\n')
     line = len(head) + len(call_lines)
     col = len(call_lines[-1])
     tail = []
-    if variant in ('closed', 'multiline'):
-        call_lines[-1] += ')'
+    if variant in ('closed', 'multiline', 'nested-closed'):
+        call_lines[-1] += '))' if outer else ')'
         tail = ['y = 1']
     src = '\n'.join(head + call_lines + tail) + ('\n' if tail else '')
-    return {'src': src, 'line': line, 'col': col, 'bracket': [len(head) + 1, len(callee)],
-            'head': '\n'.join(head) + '\n', 'callee': callee, 'name_col': len(callee) - 1}
+    callee_col = len(outer)
+    return {'src': src, 'line': line, 'col': col, 'bracket': [len(head) + 1, callee_col + len(callee)],
+            'head': '\n'.join(head) + '\n', 'callee': callee, 'name_col': callee_col + len(callee) - 1}
 
 
 # ---------------------------------------------------------------- CPython oracle
@@ -499,14 +504,14 @@ def case_jobs(case, seedbit):
     slot = norm_slot(case['slot'])
     form = case['form']
     h = (sum(len(k['name']) * 7 + k['stars'] for k in defn) + len(call) * 3 + len(slot['s']) + seedbit)
-    variants = ['open', 'closed', 'multiline']
-    jobs = [dict(defn=defn, form=form, call=call, slot=slot, variant=variants[h % 3], ret=bool(h % 2))]
+    variants = VARIANTS
+    jobs = [dict(defn=defn, form=form, call=call, slot=slot, variant=variants[h % 5], ret=bool(h % 2))]
     dunder = any(k['name'].startswith('__') for k in defn)
     if form == 'func' and not dunder and case.get('mode') == 'index':
         # the same parameter list behind a bound first parameter
         f2 = ['method', 'classmethod', 'init', 'staticmethod'][h % 4]
         d2 = defn if f2 == 'staticmethod' else [tok('param', 'self' if f2 != 'classmethod' else 'cls')] + defn
-        jobs.append(dict(defn=d2, form=f2, call=call, slot=slot, variant=variants[(h + 1) % 3], ret=False,
+        jobs.append(dict(defn=d2, form=f2, call=call, slot=slot, variant=variants[(h + 1) % 5], ret=False,
                          derived=True))
     return jobs
 
@@ -573,19 +578,23 @@ def wrap_case(case):
         ann, dft = split_param_string(p.to_string())
         jp.append({'name': p.name, 'kind': KINDS[p.kind.name], 'def': dft is not None, 'ann': ann is not None})
     out['jp'] = jp
-    # CPython: exactly the calls that bind against the reported signature run without TypeError
+    fnames = set(k['name'] for k in norm_defn(case['defn']) if k['t'] == 'param')
+    given = set(jutil.dec(k) for k in case['gkw'])
+    out.update(wrapper_language(head, out['to_string'], fnames, given))
+    return out
+
+
+def wrapper_language(head, reported, fnames, given, universe=('a', 'b', 'c', 'z')):
+    """CPython: exactly the calls that bind against the reported signature run without TypeError
+    (a reported **kwargs promises only names unknown to the wrapped function)."""
     g = {}
     exec(head, g)
     g2 = {}
     try:
-        exec('def ' + out['to_string'] + ': pass', g2)
+        exec('def ' + reported + ': pass', g2)
         rsig = inspect.signature(g2['w'])
     except Exception as e:  # noqa
-        out['compile_error'] = repr(e)
-        return out
-    fnames = set(k['name'] for k in norm_defn(case['defn']) if k['t'] == 'param')
-    given = set(jutil.dec(k) for k in case['gkw'])
-    universe = ['a', 'b', 'c', 'z']
+        return {'compile_error': repr(e)}
     disagree, live = [], False
     for npos in range(4):
         for r in range(len(universe) + 1):
@@ -609,7 +618,31 @@ def wrap_case(case):
                     landing = set(ba.arguments.get(vk[0], {})) if vk else set()
                     if not (landing & (fnames | given)):
                         disagree.append([npos, list(kws), 'accepted-but-fails'])
-    out['live'], out['disagree'] = live, disagree
+    return {'live': live, 'disagree': disagree}
+
+
+# hand-written programs around the generated space: (shape key, definitions, text typed after them)
+EXTRA_WRAPPERS = [
+    # another call site of the wrapper leaks into its signature (dynamic parameter search of **k)
+    ('wrapper-other-call-site', 'def f(a, b): return 0\ndef w(**k): return f(**k)\nw(a=0, b=1)\n', 'w(', {'a', 'b'}),
+    ('wrapper-two-levels', 'def f(a, *, b=1): return 0\ndef v(**k2): return f(**k2)\ndef w(x, **k): return v(**k)\n',
+     'w(', {'a', 'b'}),
+]
+
+
+def extra_wrapper_case(arg):
+    key, head, typed, fnames = arg
+    src = head + typed
+    lines = src.split('\n')
+    out = {'key': key, 'src': src}
+    res = jutil.safe(lambda: [s.to_string() for s in jutil.script(src).get_signatures(len(lines), len(lines[-1]))])
+    if res[0] == 'exc':
+        out['exc'] = res[2]
+        return out
+    out['sigs'] = res[1]
+    if len(res[1]) == 1:
+        out['to_string'] = res[1][0]
+        out.update(wrapper_language(head, res[1][0], set(fnames), set()))
     return out
 
 
@@ -734,6 +767,8 @@ def random_call(rng, defn, maxa=5):
     if st == 'frag':
         base = rng.choice(pool)
         s = base[:rng.randint(1, len(base))]
+        if keyword.iskeyword(s):      # "in" of "index": a keyword token is not an identifier fragment
+            s = base
     elif st == 'kweq':
         free = [n for n in pool if n not in used]
         s = rng.choice(free) if free else 'yy'
@@ -790,7 +825,7 @@ def big_case(arg):
         defn = [tok('param', 'cls' if form == 'classmethod' else 'self')] + defn
     call, slot = random_call(rng, bound_defn(defn, form))
     job = dict(defn=defn, form=form, call=call, slot=slot,
-               variant=rng.choice(['open', 'closed', 'multiline']), ret=rng.random() < 0.3)
+               variant=rng.choice(VARIANTS), ret=rng.random() < 0.3)
     return observe(job)
 
 
@@ -855,10 +890,10 @@ def run(ctx):
     if fast:
         ctx.notes.append('VERIF_C11_FAST set: exhaustive TLC runs reduced; not a full check')
     plan = [('index', 2, 1, 4, 1000), ('render', 2, 0, 2, 100), ('wrap', 1, 1, 2, 100)] if fast else \
-           [('index', 3, 2, 12, 200000), ('render', 3, 0, 2, 3000), ('wrap', 2, 1, 2, 5000)] if quick else \
+           [('index', 3, 2, 12, 200000), ('render', 3, 0, 2, 3000), ('wrap', 2, 1, 4, 5000)] if quick else \
            [('index', 4, 3, 14, 3000000), ('render', 4, 0, 2, 30000), ('wrap', 3, 2, 6, 100000)]
     emits = [('index', 3, 2, 131, 6, 1500), ('render', 3, 0, 7, 1, 300), ('wrap', 2, 1, 17, 1, 300)] if quick else \
-            [('index', 4, 2, 19, 8, 40000), ('index', 3, 3, 41, 8, 20000), ('render', 4, 0, 3, 2, 3000),
+            [('index', 4, 2, 29, 8, 25000), ('index', 3, 3, 61, 8, 20000), ('render', 4, 0, 3, 2, 3000),
              ('wrap', 3, 2, 7, 6, 3000)]
     jobs, roles = [], []
     for mode, maxp, maxa, workers, floor in plan:
@@ -950,7 +985,7 @@ def run(ctx):
                     v = r['case']['verdict']
                     verdicts[v] = verdicts.get(v, 0) + 1
                 nobs += 1
-                if 'jp' in ob and 'tp' in ob and (mode != 'index' or nobs % (4 if quick else 2) == 0):
+                if 'jp' in ob and 'tp' in ob and (mode != 'index' or nobs % (4 if quick else 3) == 0):
                     traces.append([sig_event(ob)])
                     trace_obs.append(ob)
                 if ok:
@@ -992,6 +1027,16 @@ def run(ctx):
         if r[0] == 'exc' and type(r[1]).__name__ in ('RecursionError', 'AssertionError'):
             blocked += 1
     ctx.coverage['star_forwarding_wrappers_blocked_by_absent_typeshed'] = '%d/%d' % (blocked, len(STAR_WRAPPERS))
+    for e in EXTRA_WRAPPERS:
+        r = extra_wrapper_case(e)
+        ctx.count('extra_wrapper_cases')
+        if 'exc' in r:
+            ctx.violation('crash:' + r['exc'], 'get_signatures raised on a hand-written wrapper', r)
+        elif len(r['sigs']) != 1 or 'compile_error' in r:
+            ctx.violation('%s:no-signature' % r['key'], 'no usable signature: %s' % r['sigs'], r)
+        elif r['disagree']:
+            ctx.violation('%s:language' % r['key'], 'calls that bind against the reported signature %s do not '
+                          'coincide with the calls that run: %s' % (r['to_string'], r['disagree'][:3]), r)
 
     # 3. TLC judges every recorded observation against the Reference (code -> spec)
     ctx.log('validating %d traces' % len(traces))
@@ -1017,11 +1062,25 @@ def run(ctx):
                           {'src': ob['src'], 'pos': ob['pos'], 'event_why': why, 'observed': ob.get('jp'),
                            'idx': ob.get('idx'), 'cpython': ob['rp'], 'acceptable': ob['acc']})
 
+    ctx.assumptions += [
+        'a completed *expr contributes an unknown number of positionals, a completed **expr no known keyword; '
+        'the index is acceptable if some such world binds the argument being typed to it; None only if no world does',
+        'call prefixes that no world can bind (TypeError before the slot) are outside the property',
+        'a bare fragment may become a positional argument or a keyword starting with the fragment',
+        'wrapper language: a reported **kwargs promises only names unknown to the wrapped function',
+        'default / annotation expressions are literals and builtin names; compared by value with inspect',
+        '*args forwarding wrappers cannot be analysed in this tree (typeshed absent) and are not modelled']
+
     # binding self-test: corrupted records must be rejected
-    good = [t for t in traces if t[0]['k'] == 'sig' and t[0]['idx'] > 0 and len(t[0]['jp']) >= 2]
-    gdoc = [t for t in traces if t[0]['k'] == 'doc' and t[0]['raw']]
+    # (baselines are traces TLC accepted; on a broken tree there may be none of a kind)
+    good = [t for t, v, ob in zip(traces, vs, trace_obs) if v['accepted'] and t[0]['k'] == 'sig'
+            and t[0]['idx'] > 0 and len(t[0]['jp']) >= 2 and ob.get('pok')]
+    gdoc = [t for t, v in zip(traces, vs) if v['accepted'] and t[0]['k'] == 'doc' and t[0]['raw']]
     if not good or not gdoc:
-        raise MachineryError('no trace suitable for the binding self-test')
+        if not ctx.violations:
+            raise MachineryError('no trace suitable for the binding self-test')
+        ctx.notes.append('binding self-test skipped: no accepted trace to corrupt (violations present)')
+        return None
     b1 = copy.deepcopy(good[0])
     b1[0]['idx'] = len(b1[0]['rp']) + 3
     b2 = copy.deepcopy(good[0])
@@ -1037,14 +1096,6 @@ def run(ctx):
         raise MachineryError('binding self-test failed: %s' % bv)
     ctx.coverage['binding_selftest'] = 'corrupted index/kind/bracket/doc records rejected: %s' % [v['why'] for v in bv[:4]]
 
-    ctx.assumptions += [
-        'a completed *expr contributes an unknown number of positionals, a completed **expr no known keyword; '
-        'the index is acceptable if some such world binds the argument being typed to it; None only if no world does',
-        'call prefixes that no world can bind (TypeError before the slot) are outside the property',
-        'a bare fragment may become a positional argument or a keyword starting with the fragment',
-        'wrapper language: a reported **kwargs promises only names unknown to the wrapped function',
-        'default / annotation expressions are literals and builtin names; compared by value with inspect',
-        '*args forwarding wrappers cannot be analysed in this tree (typeshed absent) and are not modelled']
     return None
 
 
